@@ -780,6 +780,9 @@ func (ssc *StorageSmartContract) updateSettings(
 	if err := cstate.WithActivation(balances, "demeter", func() error {
 		return nil
 	}, func() error {
+		if err := conf.validate(); err != nil {
+			return common.NewError("update_settings_validate", err.Error())
+		}
 		return ssc.saveConfig(balances, conf)
 	}); err != nil {
 		return "", err
